@@ -731,7 +731,7 @@ class Engine:
                     ps.append(pb)
                 active = list(ps)
                 model = None
-                for _ in range(6):
+                for _ in range(10):
                     self.queries += 1
                     r = self.solver.check(*active)
                     if r == z3.sat:
@@ -742,7 +742,10 @@ class Engine:
                     core = {str(c) for c in self.solver.unsat_core()}
                     if not core:
                         break
-                    active = [pb for pb in active if str(pb) not in core]
+                    # preferences give way before margins do
+                    soft_names = {str(pb) for pb in ps[len(ps) - len(self.soft):]}
+                    drop = (core & soft_names) or core
+                    active = [pb for pb in active if str(pb) not in drop]
                     if not active:
                         break
                 if model is None:
